@@ -7,7 +7,8 @@ EXPL = ('(R-SCHEME) every path segment (entry -> loop head, one loop iteration, 
         'returns equal(e(a0, g) * e(-(bound term), a1), params.pairing) - a product of exactly two pairings with exactly one '
         'negation, compared with the public pairing value; (R-CURSOR) the signer\'s free-slot fill loop contributes b[i]^id '
         'exactly on an index match and advances its cursor; (R-WRAP, shared with C14) sign/verify are precompute + the '
-        'precomputed forms.')
+        'precomputed forms.'
+        ' (R-INBOUNDS) independently of the loop structure, a must-dataflow over the CFG shows that every element of an input list (attrs.attrs, sk.b, params.h) selected by a cursor is touched only where every path has tested that cursor against the list count since it last moved.')
 
 
 def run(ctx):
